@@ -1313,3 +1313,74 @@ def rf142(run):
                       'register alone as the address: `i64:(,i,8)` is lowered to `i64:(i)` and accesses address i instead of i * 8' %
                       ('a base, ' if base else 'no base, ', 'an index,' if index else 'no index,', scale, disp, 'base' if taken == 11 else 'index'), line=site['l'])
     return n
+
+
+# ---------------------------------------------------------------------------------------------
+# RF149: the memory-type key of GVN separates loads that yield different values
+# ---------------------------------------------------------------------------------------------
+
+def rf149(run):
+    from lib import printexec as PE
+    rule = 'RF149'
+    run.rule(rule, 'GVN treats two accesses of the same address as one memory expression when mem_expr_eq finds their type keys equal, and '
+                   'then reuses the value of the earlier access.  The key function mem_expr_eq applies to `var_mem.type` (and mem_expr_hash '
+                   'with it), executed for every memory type, gives two types the same key only if a load of either yields the same '
+                   '64-bit value: same size and, below 8 bytes, the same extension (i64 / u64 / p on a 64-bit target are interchangeable; '
+                   'u8 and i8 are not, p and i32 are not)')
+    gen = run.tu('gen')
+    eq = gen.func('mem_expr_eq')
+    hs = gen.func('mem_expr_hash')
+    run.functions_analysed.update({('gen', eq.name), ('gen', hs.name)})
+
+    def key_funcs(fn):
+        out = set()
+        for x in fn.walk():
+            if x['k'] == 'CallExpr' and x.get('callee') in gen.funcs and F.call_args(x) and F.src(F.strip(F.call_args(x)[0])).replace(' ', '').endswith('var_mem.type'):
+                out.add(x['callee'])
+        return out
+    ke, kh = key_funcs(eq), key_funcs(hs)
+    if len(ke) != 1:
+        raise F.AnalysisBroken('mem_expr_eq: the key function applied to the memory type was not found (%s)' % sorted(ke))
+    kf = gen.funcs[next(iter(ke))]
+    run.functions_analysed.add(('gen', kf.name))
+    tys = dict(gen.enum('MIR_type_t'))
+    names = ['MIR_T_I8', 'MIR_T_U8', 'MIR_T_I16', 'MIR_T_U16', 'MIR_T_I32', 'MIR_T_U32', 'MIR_T_I64', 'MIR_T_U64', 'MIR_T_F', 'MIR_T_D', 'MIR_T_LD', 'MIR_T_P']
+    cls = {'MIR_T_I8': ('i', 1, 's'), 'MIR_T_U8': ('i', 1, 'u'), 'MIR_T_I16': ('i', 2, 's'), 'MIR_T_U16': ('i', 2, 'u'), 'MIR_T_I32': ('i', 4, 's'),
+           'MIR_T_U32': ('i', 4, 'u'), 'MIR_T_I64': ('i', 8, '-'), 'MIR_T_U64': ('i', 8, '-'), 'MIR_T_P': ('i', 8, '-'),
+           'MIR_T_F': ('f', 4, '-'), 'MIR_T_D': ('d', 8, '-'), 'MIR_T_LD': ('ld', 16, '-')}
+    key = {}
+    for nm in names:
+        ex = PE.PrintExec(gen, {}, {}, {})
+        ex.retval = 'none'
+        pn = kf.params[0]['n']
+        try:
+            ex.run(kf.body, {pn: tys[nm]})
+        except F.AnalysisBroken as e_:
+            raise F.AnalysisBroken('%s not executable for %s: %s' % (kf.name, nm, e_))
+        if not isinstance(ex.retval, int):
+            raise F.AnalysisBroken('%s: no result for %s' % (kf.name, nm))
+        key[nm] = ex.retval
+    n = 0
+    first = None
+    for i, a in enumerate(names):
+        for b in names[i + 1:]:
+            same_key = key[a] == key[b]
+            n += 1
+            ok = not same_key or cls[a] == cls[b]
+            if same_key or not ok:
+                run.ob(rule, (a, b), ok, {'types': (a, b), 'same key': same_key, 'same load result': cls[a] == cls[b]})
+            else:
+                run.ob(rule, (a, b), ok)
+            if not ok and first is None:
+                first = (a, b)
+    n += 1
+    okh = ke == kh
+    run.ob(rule, ('hash',), okh, {'key function of mem_expr_eq': sorted(ke), 'of mem_expr_hash': sorted(kh)})
+    if not okh:
+        run.violation(rule, hs, 'hash and equality use different keys', 'mem_expr_hash applies %s to the memory type, mem_expr_eq %s' % (sorted(kh), sorted(ke)), line=hs.line)
+    if first:
+        a, b = first
+        run.violation(rule, kf, 'memory types %s and %s share a key' % (a[6:].lower(), b[6:].lower()), '%s gives %s and %s the same key, so GVN takes a %s '
+                      'access and a %s access of one address for the same memory expression and reuses the earlier value: a load yields the '
+                      'value extended (or sized) for the other type at -O2 and -O3' % (kf.name, a, b, a[6:].lower(), b[6:].lower()), line=kf.line)
+    return n
